@@ -156,7 +156,50 @@ theorem block_spec (c : Cfg) (p : Frame → Bool) (d : Nat) (s : St) (evs : List
           refine ⟨by rw [i1, hq1, List.append_assoc], i2, ?_⟩
           simpa [hq1, allFrames_cons, List.append_assoc] using i3
 
+/-- the events a blocked call absorbs form a prefix of the timeline, all before the deadline; their alive-check
+    responses are exactly what is appended to the written bytes -/
+theorem block_taken (c : Cfg) (p : Frame → Bool) (d : Nat) (s : St) (evs : List Ev) :
+    ∃ taken, evs = taken ++ (block c p d s evs).2.2 ∧
+      (block c p d s evs).2.1.out = s.out ++ outOf c taken ∧ ∀ e ∈ taken, e.t < d := by
+  induction evs generalizing s with
+  | nil => exact ⟨[], by simp [block]⟩
+  | cons e es ih =>
+    simp only [block]
+    have ho : (s.absorb c e).out = s.out ++ outOf c [e] := by
+      simp [St.absorb, outOf_cons]; cases e.reply <;> simp
+    split
+    · exact ⟨[], by simp⟩
+    · rename_i hlt
+      have hlt' : e.t < d := by omega
+      split
+      · obtain ⟨tk, h1, h2, h3⟩ := ih (s.absorb c e)
+        refine ⟨e :: tk, by simp [← h1], ?_, ?_⟩
+        · rw [h2, ho, List.append_assoc, ← outOf_append]; rfl
+        · intro x hx; rcases List.mem_cons.mp hx with rfl | hx
+          · exact hlt'
+          · exact h3 x hx
+      · split
+        · exact ⟨[e], by simp, by simp [ho], by simpa using hlt'⟩
+        · split
+          · exact ⟨[e], by simp, by simp [ho], by simpa using hlt'⟩
+          · obtain ⟨tk, h1, h2, h3⟩ := ih (s.absorb c e)
+            refine ⟨e :: tk, by simp [← h1], ?_, ?_⟩
+            · rw [h2, ho, List.append_assoc, ← outOf_append]; rfl
+            · intro x hx; rcases List.mem_cons.mp hx with rfl | hx
+              · exact hlt'
+              · exact h3 x hx
+
 /-! ### `wait` -/
+
+theorem wait_taken (c : Cfg) (p : Frame → Bool) (d : Nat) (s : St) (evs : List Ev) :
+    ∃ taken, evs = taken ++ (wait c p d s evs).2.2 ∧
+      (wait c p d s evs).2.1.out = s.out ++ outOf c taken ∧ ∀ e ∈ taken, e.t < d := by
+  unfold wait
+  split
+  · exact ⟨[], by simp⟩
+  · split
+    · exact ⟨[], by simp⟩
+    · exact block_taken c p d s evs
 
 theorem wait_out (c : Cfg) (p : Frame → Bool) (d : Nat) (s : St) (evs : List Ev) :
     (wait c p d s evs).2.1.out ++ outOf c (wait c p d s evs).2.2 = s.out ++ outOf c evs := by
@@ -243,5 +286,86 @@ theorem finish_closed (c : Cfg) (s : St) (rest : List Ev) (rd' : Reader) (tEnd :
     (s.finish c rest rd' tEnd).queue = s.queue ∧ (s.finish c rest rd' tEnd).out = s.out ∧
     (s.finish c rest rd' tEnd).closed = true := by
   simp [St.finish, hc]
+
+/-! ### the client calls in terms of `wait` -/
+
+def readRes : WaitRes → OpRes
+  | .got f => .msg f.userData
+  | .conn => .conn
+  | .timeout => .timeout
+
+theorem readBody_eq (c : Cfg) (tmo : Nat) (s : St) (evs : List Ev) :
+    readBody c tmo s evs =
+      (readRes (wait c (isDiagFor c) (s.now + tmo) s evs).1, (wait c (isDiagFor c) (s.now + tmo) s evs).2.1,
+       (wait c (isDiagFor c) (s.now + tmo) s evs).2.2) := by
+  unfold readBody
+  generalize wait c (isDiagFor c) (s.now + tmo) s evs = W
+  obtain ⟨r, s1, rest⟩ := W
+  cases r <;> rfl
+
+def writeRes (tmo : Nat) : WaitRes → OpRes
+  | .got (.ackNeg _ _ code _) => if code = nackTargetUnreachable then .ok else .nack (nackName code)
+  | .got _ => .ok
+  | .conn => .conn
+  | .timeout => if tmo < ackTimeoutMs then .timeout else .conn
+
+/-- the state a write leaves: the acknowledgement timeout closes the connection -/
+def writeSt (tmo : Nat) (r : WaitRes) (s1 : St) : St :=
+  if r = .timeout ∧ ¬ tmo < ackTimeoutMs then { s1 with closed := true } else s1
+
+/-- the connection state in which a write waits for its acknowledgement -/
+def St.sent (s : St) (bytes : Bytes) : St := { s with out := s.out ++ [(s.now, bytes)] }
+
+theorem writeBody_eq (c : Cfg) (data : Bytes) (tmo : Nat) (s : St) (evs : List Ev) (hc : s.closed = false) :
+    writeBody c data tmo s evs =
+      (writeRes tmo (wait c (ackMatch c data) (s.now + min tmo ackTimeoutMs) (s.sent (diagReq c data)) evs).1,
+       writeSt tmo (wait c (ackMatch c data) (s.now + min tmo ackTimeoutMs) (s.sent (diagReq c data)) evs).1
+         (wait c (ackMatch c data) (s.now + min tmo ackTimeoutMs) (s.sent (diagReq c data)) evs).2.1,
+       (wait c (ackMatch c data) (s.now + min tmo ackTimeoutMs) (s.sent (diagReq c data)) evs).2.2) := by
+  unfold writeBody St.sent
+  simp only [hc, Bool.false_eq_true, if_false]
+  generalize wait c (ackMatch c data) (s.now + min tmo ackTimeoutMs) _ evs = W
+  obtain ⟨r, s1, rest⟩ := W
+  cases r with
+  | got f => cases f <;> simp [writeRes, writeSt]
+  | conn => simp [writeRes, writeSt]
+  | timeout =>
+    by_cases h : tmo < ackTimeoutMs <;> simp [writeRes, writeSt, h]
+
+def connRes (tmo : Nat) : WaitRes → OpRes
+  | .got (.rar _ _ code) => if code = raSuccess then .ok else .denied (racName code)
+  | .got _ => .conn
+  | .conn => .conn
+  | .timeout => if tmo < raTimeoutMs then .timeout else .conn
+
+def connSt (tmo : Nat) (r : WaitRes) (s1 : St) : St :=
+  if r = .timeout ∧ ¬ tmo < raTimeoutMs then { s1 with closed := true } else s1
+
+theorem connectBody_eq (c : Cfg) (atype : UInt8) (tmo : Nat) (s : St) (evs : List Ev) :
+    connectBody c atype tmo s evs =
+      (connRes tmo (wait c isRar (s.now + min tmo raTimeoutMs) (s.sent (raReq c atype)) evs).1,
+       connSt tmo (wait c isRar (s.now + min tmo raTimeoutMs) (s.sent (raReq c atype)) evs).1
+         (wait c isRar (s.now + min tmo raTimeoutMs) (s.sent (raReq c atype)) evs).2.1,
+       (wait c isRar (s.now + min tmo raTimeoutMs) (s.sent (raReq c atype)) evs).2.2) := by
+  unfold connectBody St.sent
+  dsimp only
+  generalize wait c isRar (s.now + min tmo raTimeoutMs) _ evs = W
+  obtain ⟨r, s1, rest⟩ := W
+  cases r with
+  | got f => cases f <;> simp [connRes, connSt]
+  | conn => simp [connRes, connSt]
+  | timeout =>
+    by_cases h : tmo < raTimeoutMs <;> simp [connRes, connSt, h]
+
+/-- the event timeline of a call: what the reader task makes of the chunks arriving during it -/
+def timeline (s : St) (arr : List (Nat × Bytes)) : List Ev := (s.rd.run (shift s.now arr)).2
+
+theorem runOp_res (c : Cfg) (s : St) (arr : List (Nat × Bytes)) (body : St → List Ev → OpRes × St × List Ev) :
+    (runOp c s arr body).1 = (body s (timeline s arr)).1 ∧
+    (runOp c s arr body).2.1 = (body s (timeline s arr)).2.1.now ∧
+    (runOp c s arr body).2.2 =
+      (body s (timeline s arr)).2.1.finish c (body s (timeline s arr)).2.2 (s.rd.run (shift s.now arr)).1
+        (lastT s.now arr) := by
+  simp [runOp, timeline]
 
 end Gallia.Doip
